@@ -9,7 +9,7 @@ CHECK = {'level': 'model_checking',
          'newest term, the standby equals the active after the upgrade path. C: crash after every physical write of '
          'Rotate/RotateRootKey (barrier) and of rekey / root rotation (share-less and share-based to another '
          'threshold) / key rotation (Core), restart, unseal with old '
-         'or new key material, read everything back. HA: every history (depth 3/4) over write / rotate / rotate-root / '
+         'or new key material, read everything back. HA: every history (depth 4/5; histories containing a sys/step-down, after which the node stays unsealed and follows by the upgrade path only: depth 3/4) over write / rotate / rotate-root / '
          'rekey (rotation API and deprecated API) / fail-over / restart on two real Cores sharing one store and one HA '
          'lock; after every step the active node reads everything back and writes under the newest term, the node that '
          'took over holds the keyring the active node had, a sealed node serves nothing, and a copy of the store '
